@@ -248,7 +248,7 @@ Section MainOdo.
         pose proof (assoc_find_pair u bases) as Hp.
         destruct (find (fun p => N.eqb (fst p) u) bases) as [[j extu]|]; [|discriminate]. symmetry in Hp.
         destruct (INV x u extu (or_introl eq_refl) Er Hp) as (su & lx & Hsu & Hlx & Hgx & Hrx).
-        rewrite assoc_find, Hsu in *. rewrite walk_props_cons, walk_ref. cbn [js_anchor reg lsize].
+        rewrite assoc_find, Hsu in *. rewrite walk_props_cons, walk_ref. cbn [js_anchor reg lsize]; rewrite ?ref_size_0.
         destruct (IH HWxs Hndxs avail bases (off + 0) ((item_id x, su) :: seen) an Hwfxs Huxs Havxs Hcn)
           as (pls & an' & Hwp & Hgk & Hext & Hcn').
         * rewrite Nat.add_0_r. eapply Hconv. exact Hhxs.
@@ -319,7 +319,7 @@ Section MainOdo.
                 eapply (proj1 (Good_stable B dcount r e)); [exact Hg2|exact Hpres].
           -- exists (LPCons (KRedef (item_id x)) l1 (LPCons (KName (item_id x)) (LRef (off + extent e x) (KName (item_id x))) pls)), an'.
              rewrite walk_props_cons, walk_one, walk_alts_cons, Hwalk, Hwa. fold l1. cbn [js_anchor reg]. fold an4.
-             rewrite Hl1, walk_props_cons, walk_ref. cbn [js_anchor reg lsize]. rewrite Hwp.
+             rewrite Hl1, walk_props_cons, walk_ref. cbn [js_anchor reg lsize]; rewrite ?ref_size_0. rewrite Hwp.
              rewrite !Nat.add_0_r, Nat.add_assoc. cbn [app]. split; [reflexivity|].
              assert (Hchain : forall i, In i (ids x) -> lookup (KName i) an' = lookup (KName i) an1).
              { intros i Hi. rewrite (extends_lookup _ _ _ _ Hext); [|apply (disjoint_ids x xs); assumption].
@@ -444,7 +444,7 @@ Section MainOdo.
       + destruct rd as [u|]; [discriminate|]. cbn [wfo] in Hw.
         destruct (CN_lookup an avail c Hcn Hw) as (cst & csz & Hl & Hv).
         cbn [build_alt]. unfold elem_items. rewrite walk_odo, Hl, walk_obj, walk_props_cons, walk_atom, walk_props_nil.
-        cbn [js_anchor reg lsize]. rewrite sub_add_cancel, Hv.
+        cbn [js_anchor reg lsize]; rewrite ?ref_size_0. rewrite sub_add_cancel, Hv.
         eexists. eexists. split; [reflexivity|]. split; [|split; [reflexivity|split; [intros H; discriminate|split]]].
         * cbn [LayoutP.Good lstart lsize]. unfold extent. cbn [item_oc count ext1]. split; [reflexivity|]. split; [lia|].
           eexists. reflexivity.
@@ -524,12 +524,12 @@ Section MainOdo.
     intros Hw Hnd Hh.
     destruct (proj1 WO_all t [] Hw Hnd (fun c H => match H with end) 0 [] (fun c H => match H with end) Hh)
       as (l & an & Hwalk & Hg & _).
-    exists (mknav l an). unfold nav_of, build. rewrite Hwalk. split; [reflexivity|].
+    exists (mknav l an). rewrite nav_of_unf. unfold build. rewrite Hwalk. split; [reflexivity|].
     assert (HR : Rel B dcount r e (VItem t) 0 (mknav l an)) by exact Hg.
     destruct (Rel_place B dcount r e _ _ _ HR) as [H0 Hsz]. cbn [n_loc view_size] in *. unfold lend. rewrite H0, Hsz.
     split; [reflexivity|]. split; [reflexivity|].
     intros p v st Hs. destruct (nav_path_ok B dcount r e p _ _ _ _ _ HR Hs) as (nv & Hn & HRn).
-    exists nv. destruct (Rel_place B dcount r e _ _ _ HRn) as [H1 H2]. unfold nav_raw, lend. rewrite H1, H2.
+    exists nv. destruct (Rel_place B dcount r e _ _ _ HRn) as [H1 H2]. rewrite nav_raw_unf. unfold lend. rewrite H1, H2.
     repeat split; try assumption.
     intros x -> Ht i Hi. eapply index_refused; eassumption.
   Qed.
